@@ -349,6 +349,16 @@ let () =
               fail "c20" (Printf.sprintf "f%d x=%d: the suspended call holds %s cache lock(s)" f x (Option.value (field "held") ~default:"?"));
             if Option.value (field "exec") ~default:"0" <> "0" then
               fail "c20" (Printf.sprintf "f%d x=%d: the body produced a result before the gate opened" f x);
+            (* a lookup removes nothing but an expired entry of its own key *)
+            (match List.find_opt (fun wi -> wi.wf = f && wi.wtid = -1) instances, Hashtbl.find_opt prev_inst (f, -1) with
+             | Some wi, Some p ->
+               let expired_self k = (k = x) && (match fn.w.w_cfg.ttl, List.assoc_opt x p.wstore with
+                   | Some t, Some (_, _, born) -> (int_of_n now) / 1000 - born / 1000 >= int_of_n t
+                   | _ -> false) in
+               List.iter (fun (k, _) ->
+                   if not (List.mem_assoc k wi.wstore) && not (expired_self k) then
+                     fail "c20" (Printf.sprintf "f%d: the suspended call for x=%d removed the entry of key %d during its lookup" f x k)) p.wstore
+             | _ -> ());
             if Option.value (field "inv") ~default:"-" <> show_asked a then
               set_verdict (Printf.sprintf "MISMATCH %d callA f%d x=%d invalidate_on log model=%s impl=%s" !evidx f x (show_asked a) (Option.value (field "inv") ~default:"?"))
           | Some (Some _, _), _ -> set_verdict (Printf.sprintf "MISMATCH %d callA f%d x=%d model=served impl=%s" !evidx f x !got_r)
@@ -391,6 +401,13 @@ let () =
                    (Option.value (field "inv") ~default:"?") (Option.value (field "cif") ~default:"?") in
                if field "panic" = None && exp <> got then
                  set_verdict (Printf.sprintf "MISMATCH %d callB f%d x=%d model={%s} impl={%s}" !evidx f x exp got);
+               if has "c20" && field "panic" = None then
+                 (match List.find_opt (fun wi -> wi.wf = f && wi.wtid = -1) instances with
+                  | Some wi -> (match List.assoc_opt x wi.wstore with
+                      | Some (v, _, born) when v = int_of_n (enc ci.ci_body) && born <> (int_of_n now / 1000) * 1000 ->
+                        fail "c20" (Printf.sprintf "f%d x=%d: the entry stored by the resumed call is born at %d ms, the call resumed at %d ms" f x born (int_of_n now))
+                      | _ -> ())
+                  | None -> ());
                if has "c20" && field "panic" = None && Option.value (field "enc") ~default:"" <> string_of_int (int_of_n (enc ci.ci_body)) then
                  fail "c20" (Printf.sprintf "f%d x=%d: the resumed call returned %s, its body's result is %d" f x (Option.value (field "enc") ~default:"?") (int_of_n (enc ci.ci_body)))))
        | "callD", _ ->
@@ -496,6 +513,7 @@ let () =
          if rl <> ["bool"; (if b then "1" else "0")] then
            set_verdict (Printf.sprintf "MISMATCH %d sreset f%s model=%b impl=%s" !evidx f b !got_r)
        | "nop", _ -> ()
+       | "rsleep", _ -> ()
        | _ -> failwith ("event " ^ kind));
       if !verdict = None then check_instances ();
       List.iter (fun wi -> Hashtbl.replace prev_inst (wi.wf, wi.wtid) wi) instances;
